@@ -294,6 +294,47 @@ def idiom_c(body, wl):
                  "body proceeds only then (6 cases)", rows
 
 
+def push_flag_sources(body, wl):
+    """For a worklist of (item, flag) tuples: the local each push takes its flag from.
+    Returns {push block: source local or a printed operand}."""
+    blocks = body["mir"]["blocks"]
+    out = {}
+    for pb in wl["pushes"]:
+        t = blocks[pb]["term"]
+        v = t["args"][1].get("move") or t["args"][1].get("copy")
+        if v is None or v["p"]:
+            continue
+        tup = None
+        assigns = {}
+        for st in blocks[pb]["st"]:
+            if "lhs" in st and not st["lhs"]["p"]:
+                assigns[st["lhs"]["l"]] = st["rv"]
+        rv = assigns.get(v["l"])
+        if rv is None or rv["k"] != "agg" or rv["kind"].get("agg") != "tuple" or len(rv["ops"]) != 2:
+            continue
+        fop = rv["ops"][1]
+        fl = fop.get("move") or fop.get("copy")
+        if fl is None:
+            out[pb] = json_key(fop)
+            continue
+        src = fl["l"]
+        for _ in range(4):
+            r2 = assigns.get(src)
+            if r2 is not None and r2["k"] == "use":
+                q = r2["o"].get("copy") or r2["o"].get("move")
+                if q is not None and not q["p"]:
+                    src = q["l"]
+                    continue
+            break
+        out[pb] = src
+    return out
+
+
+def json_key(o):
+    import json as _json
+    return _json.dumps(o, sort_keys=True)
+
+
 EXPECTED_WORKLISTS = {"nfa::NFA::compute_state_closure", "nfa_to_dfa::nfa_to_dfa",
                       "dfa::backtrack::update_backtracks"}
 
@@ -335,6 +376,17 @@ def check_rwl(ctx, prog):
             ctx.ob("R-WL", "update_backtracks: a state's backtrack flag is only ever raised "
                    "(monotone) or each (state, flag) pair is visited once", okc or oka,
                    key="R-WL:update_backtracks:monotone", where=ub["span"], detail=wc)
+            srcs = push_flag_sources(ub, wl)
+            names = ub["mir"].get("names", {})
+            shown = {("bb%d" % b): names.get(str(v), "_%s" % v) for b, v in sorted(srcs.items())}
+            ctx.ob("R-WL", "update_backtracks: all successor kinds are pushed with the same flag "
+                   "(sibling agreement over %d pushes)" % len(srcs),
+                   len(srcs) == len(wl["pushes"]) and len(set(srcs.values())) == 1 and len(srcs) >= 4,
+                   key="R-WL:update_backtracks:siblings", where=ub["span"],
+                   detail={"flag source per push": shown,
+                           "meaning": "the char, range, `_` and end-of-input successors of a state "
+                                      "must inherit the same backtrack flag; a push that passes a "
+                                      "different value leaves one kind of successor unmarked"})
     return found
 
 
